@@ -351,8 +351,14 @@ func c18prop(ev *evid.Rec) func(rt *rapid.T) {
 					}
 					sort.Slice(ids, func(i, j int) bool { return ids[i] < ids[j] })
 					id := rapid.SampledFrom(ids).Draw(rt, "id")
-					rec("delete-article %v #%d", p, id)
-					if r := s.c.Request(hlref.TranDelNewsArt, newsPath(p), fld(hlref.FNewsArtID, hlref.BE32(int(id)))); !okReply(r) {
+					// the optional "delete the replies too" flag: the statement promises that exactly the named article goes
+					fs := []hlref.Field{newsPath(p), fld(hlref.FNewsArtID, hlref.BE32(int(id)))}
+					flag := rapid.SampledFrom([]int{-1, -1, 0, 1}).Draw(rt, "recursiveFlag")
+					if flag >= 0 {
+						fs = append(fs, fld(hlref.FNewsArtRecurseDel, hlref.BE16(flag)))
+					}
+					rec("delete-article %v #%d flag=%d", p, id, flag)
+					if r := s.c.Request(hlref.TranDelNewsArt, fs...); !okReply(r) {
 						s.fail("delete article refused")
 					}
 					delete(n.arts, id)
